@@ -13,6 +13,7 @@ from ..extern.polytri import polytri
 from .base_classes import Shape2D
 from .circle import Circle
 from .utils import (
+    _check_bounding_ball,
     _generate_ax,
     _hoomd_dict_mapping,
     _map_dict_keys,
@@ -515,9 +516,8 @@ class Polygon(Shape2D):
             try:
                 center, r2 = miniball.get_bounding_ball(vertices)
                 # For degenerate supports (e.g. all vertices on one sphere) miniball
-                # occasionally returns a ball that misses vertices: treat as failure.
-                if np.any(np.sum((vertices - center) ** 2, axis=1) > r2 * (1 + 1e-6)):
-                    raise np.linalg.LinAlgError("miniball result excludes a vertex")
+                # occasionally returns a wrong ball: treat that as a failure.
+                _check_bounding_ball(vertices, center, r2)
                 break
             except np.linalg.LinAlgError:
                 current_rotation = rowan.random.rand(1)
